@@ -296,6 +296,8 @@ func (s *Style) LabelText(l hx.B) string {
 		switch {
 		case i == esc:
 			fmt.Fprintf(&sb, "\\%03d", c)
+		case c == ' ' && s.coin(2):
+			sb.WriteString("\\ ")
 		case strings.IndexByte(". '@;()\"\\", byte(c)) >= 0:
 			sb.WriteByte('\\')
 			sb.WriteByte(byte(c))
